@@ -31,6 +31,7 @@ structure Level where
   starters3 : List Nat
   sched3 : List Tok
   cutT : Nat                       -- schedule tokens of THIS level consumed before the checkpoint save
+  order : List Nat                 -- the children in the order the composite lists them
 
 structure DSt where
   n : Nat
@@ -46,6 +47,7 @@ structure DSt where
   clearAll : Bool                  -- `running` is cleared too (checkpoint / interrupt: the process is gone)
   clearAll2 : Bool                 -- the same for the second recovery file
   suppress : Bool                  -- the first run was `run(raise_run_exceptions=False)`: no file, resumed in place
+  cont : Option CCfg               -- restart with the `running` flags kept (`_serialize_result`), flat graphs
   kbd2 : List Nat
 
 def emptyFin (n : Nat) : FinDag :=
@@ -54,7 +56,7 @@ def emptyFin (n : Nat) : FinDag :=
 
 def DSt.init : DSt :=
   { n := 0, rc := RCfg.now, levels := [], cur := none, dirty := [], cut := none, keyAfterRun := true,
-    cp := [], ckptMore := [], fails2 := [], kbd2 := [], clearAll := true, clearAll2 := true, suppress := false }
+    cp := [], ckptMore := [], fails2 := [], kbd2 := [], clearAll := true, clearAll2 := true, suppress := false, cont := none }
 
 def setAt {α} (l : List α) (i : Nat) (v : α) (dflt : α) : List α :=
   let l' := if l.length ≤ i then l ++ List.replicate (i + 1 - l.length) dflt else l
@@ -434,8 +436,12 @@ def runCase (st0 : DSt) : List String :=
         let dl := match cutOf root.id with | some rc => rc.s.doneLog | none => []
         let saves : List Bool :=
           if st.ckptMore.isEmpty then [cpDoneAt cutStates]
-          else (List.range dl.length).filterMap fun k =>
-            if savers.contains (dl.getD k 0) then some ((dl.take (k + 1)).any (fun i => st.cp.contains i)) else none
+          else
+            -- earlier saves: what had completed when that node finished; the LAST one (the cut) sees the whole cut
+            -- state — completions nested in the saving node's own finishing callback come before its save
+            let early := (List.range dl.length).filterMap fun k =>
+              if savers.contains (dl.getD k 0) then some ((dl.take (k + 1)).any (fun i => st.cp.contains i)) else none
+            early.dropLast ++ [cpDoneAt cutStates]
         let fs := saves.foldl (fun fs b => Storage.saveFS stCfg fs (content b) Storage.Cls.graph 1) Storage.FS.init
         (showFS (rootDir (forest.checkpointDir depthFuel c)) "picklestorage" fs, Storage.FS.init)
       | none =>
@@ -507,7 +513,25 @@ def runCase (st0 : DSt) : List String :=
             "H res fcalls " ++ " ".intercalate (l.own.map fun i => s!"{i}:{rs3.fcalls i}"),
             "H res out " ++ " ".intercalate (l.own.map fun i => s!"{i}:" ++ showExp v3 l.id [] (rs3.s.out i)) ]
       | _, _, _ => []
-    if refused then ["files " ++ " ".intercalate files, "load-failed"]
+    -- restart with the running flags kept: the first run goes on from the cut (or what the code keeps of it)
+    let contLines : List String :=
+      match st.cont, ls, cutOf root.id with
+      | some cc, [l], some c =>
+        -- the new process has no executors: what is triggered from here on runs locally
+        let dc : Dag := { c.d with onExec := fun _ => false }
+        if c.s.running.isEmpty then ["K skip"]    -- nothing out at the cut: that is an ordinary (fresh) resume
+        else match continueFrom cc Cfg.repaired dc l.order c.s with
+        | none => ["K end refused"]
+        | some s1 =>
+          let (s2, fin) := drive id (step Cfg.repaired dc) (fun _ _ => false) false (fuelOf l.f.n) s1 [] 0 0
+          let v : View := { st, outs := fun _ i => s2.out i, args := fun _ i => s2.args i, parentOf }
+          [ s!"K end {fin}",
+            "K st " ++ " ".intercalate (l.own.map fun i => s!"{i}:{showSt (s2.st i)}"),
+            "K calls " ++ " ".intercalate (l.own.map fun i => s!"{i}:{s2.calls i - c.s.calls i}"),
+            "K out " ++ " ".intercalate (l.own.map fun i => s!"{i}:" ++ showExp v l.id [] (s2.out i)) ]
+      | _, _, _ => []
+    if st.cont.isSome then ["files " ++ " ".intercalate files] ++ contLines
+    else if refused then ["files " ++ " ".intercalate files, "load-failed"]
     else ["files " ++ " ".intercalate files] ++ perLevel.flatten ++ history
 
 def parseTok (w : String) : Option Tok :=
@@ -545,7 +569,7 @@ def step' (s : DSt) (ws : List String) : DSt × List String :=
       ({ s with cur := some { id := lid, own := [], f := emptyFin s.n, down2 := List.replicate s.n [], starters2 := [],
                                exec2 := List.replicate s.n false, macros := [], ui := [], vlink := [], outNode := 0,
                                sched := [], sched2 := [], kbd := [], down3 := List.replicate s.n [], starters3 := [],
-                               sched3 := [], cutT := 0 } }, [])
+                               sched3 := [], cutT := 0, order := [] } }, [])
     | none => (s, ["bad-op"])
   | ["endlevel"] => match s.cur with
     | some l => ({ s with levels := s.levels ++ [l], cur := none }, [])
@@ -608,6 +632,9 @@ def step' (s : DSt) (ws : List String) : DSt × List String :=
   | "starters3" :: ss => match nats ss with
     | some ss => withCur s fun l => some { l with starters3 := ss }
     | none => (s, ["bad-op"])
+  | "order" :: is => match nats is with
+    | some is => withCur s fun l => some { l with order := is }
+    | none => (s, ["bad-op"])
   | ["cutT", n] => match n.toNat? with
     | some n => withCur s fun l => some { l with cutT := n }
     | none => (s, ["bad-op"])
@@ -623,6 +650,9 @@ def step' (s : DSt) (ws : List String) : DSt × List String :=
   | "fails2" :: is => match nats is with
     | some is => ({ s with fails2 := is }, [])
     | none => (s, ["bad-op"])
+  | ["continue", a, b] => match parseBool a, parseBool b with
+    | some a, some b => ({ s with cont := some { keepQueue := a, iterateCopy := b } }, [])
+    | _, _ => (s, ["bad-op"])
   | ["suppress", a] => match parseBool a with
     | some a => ({ s with suppress := a }, [])
     | none => (s, ["bad-op"])
